@@ -233,6 +233,85 @@ def formula(terms):
     return RS.join(US.join(t) for t in terms) if terms else '-'
 
 
+# ------------------------------------------------------------------------------------------------
+# ONE clip path / mask shared by two or three elements with different bounding boxes (all unit combinations).
+# usvg caches (shares) a definition only when it does not depend on the user's box; every user must still be clipped /
+# masked relative to its OWN box.
+# ------------------------------------------------------------------------------------------------
+CELLS = [(0, 0), (80, 0), (0, 80), (80, 80)]
+REFBOX = (30.0, 30.0, 130.0, 130.0)      # generated content lives in [30,130]^2 of its own user space
+
+
+def gen_shared_case(rng, mode):
+    nusers = 2 + rng.below(2)
+    cells = rng.sample(CELLS, nusers)
+    defs = []
+    users = []
+    for u in range(nusers):
+        content, bbox = P.gen_content(rng, defs, prefix='u%d' % u)
+        users.append((content, bbox, 'translate(%d %d) scale(0.5)' % cells[u], cells[u]))
+    info = dict(mode=mode, f16=False, shared=True)
+    if mode == 'clip':
+        obb = rng.below(2) == 0
+        box = (0.0, 0.0, 1.0, 1.0) if obb else REFBOX
+        shapes = "".join(gen_shape(rng, box, obb) for _ in range(1 + rng.below(2)))
+        cts = small_ts(rng) if (not obb and rng.below(3) == 0) else ''
+        defs.append('<clipPath id="sh"%s%s>%s</clipPath>' % (' clipPathUnits="objectBoundingBox"' if obb else '', ' transform="%s"' % cts if cts else '', shapes))
+        attr = ' clip-path="url(#sh)"'
+        info['units'] = 'clipPathUnits=%s' % ('objectBoundingBox' if obb else 'userSpaceOnUse')
+
+        def terms_of(bbox, gts, cell):
+            unit = 'translate(%s %s) scale(%s %s)' % (num(bbox[0]), num(bbox[1]), num(bbox[2] - bbox[0]), num(bbox[3] - bbox[1])) if obb else ''
+            t = [cell_doc(cell), cov_doc(shapes, [unit, cts, gts])]
+            return [t], [t]
+    else:
+        munits = rng.choice(['objectBoundingBox', 'userSpaceOnUse'])
+        cunits = rng.choice(['objectBoundingBox', 'userSpaceOnUse'])
+        kind = rng.choice(['luminance', 'alpha'])
+        if munits == 'userSpaceOnUse':
+            reg = [round(v * 4) / 4 for v in (30 + dy(rng, -20, 30, 4), 30 + dy(rng, -20, 30, 4), dy(rng, 50, 130, 4), dy(rng, 50, 130, 4))]
+        else:
+            reg = [dy(rng, -0.3, 0.3, 16), dy(rng, -0.3, 0.3, 16), dy(rng, 0.5, 1.5, 16), dy(rng, 0.5, 1.5, 16)]
+        cobb = cunits == 'objectBoundingBox'
+        shapes = "".join(gen_shape(rng, (0.0, 0.0, 1.0, 1.0) if cobb else REFBOX, cobb) for _ in range(1 + rng.below(2)))     # white: the inside clause applies
+        defs.append('<mask id="sh" maskUnits="%s" maskContentUnits="%s" mask-type="%s" x="%s" y="%s" width="%s" height="%s">%s</mask>'
+                    % (munits, cunits, kind, num(reg[0]), num(reg[1]), num(reg[2]), num(reg[3]), shapes))
+        attr = ' mask="url(#sh)"'
+        info['units'] = 'maskUnits=%s maskContentUnits=%s' % (munits, cunits)
+
+        def terms_of(bbox, gts, cell):
+            bw, bh = bbox[2] - bbox[0], bbox[3] - bbox[1]
+            if munits == 'userSpaceOnUse':
+                r = reg
+            else:
+                r = [bbox[0] + reg[0] * bw, bbox[1] + reg[1] * bh, reg[2] * bw, reg[3] * bh]
+            unit = 'translate(%s %s) scale(%s %s)' % (num(bbox[0]), num(bbox[1]), num(bw), num(bh)) if cobb else ''
+            t = [cell_doc(cell), cov_doc('<rect x="%s" y="%s" width="%s" height="%s" fill="#ffffff"/>' % tuple(num(v) for v in r), [gts]),
+                 cov_doc(shapes, [unit, gts])]
+            return [t], [t]
+    outside, inside = [], []
+    body_t, body_p = '', ''
+    for content, bbox, gts, cell in users:
+        o, i = terms_of(bbox, gts, cell)
+        outside += o
+        inside += i
+        body_t += '<g%s transform="%s">%s</g>' % (attr, gts, content)
+        body_p += '<g transform="%s">%s</g>' % (gts, content)
+    s = rng.choice([0.5, 1, 1, 1.5, 2])
+    ang = rng.choice([0, 0, 0, 15, -30, 90])
+    size = int(math.ceil(160 * s))
+    base = P.mat_mul(P.rot(ang), (s, 0, 0, s, 0, 0))
+    cx, cy = P.mat_pt(base, 80, 80)
+    root = tuple(P.f32_of(v) for v in (base[0], base[1], base[2], base[3], size / 2.0 - cx, size / 2.0 - cy))
+    head = '<svg %s width="160" height="160"><defs>%s</defs>' % (NS, "".join(defs))
+    info.update(doc=head + body_t + '</svg>', plain=head + body_p + '</svg>', ts=root, size=size, outside=formula(outside), inside=formula(inside))
+    return info
+
+
+def cell_doc(cell):
+    return cov_doc('<rect x="%d" y="%d" width="80" height="80" fill="#ffffff"/>' % cell, [])
+
+
 def gen_case(rng, mode):
     """mode: clip | mask | opacity"""
     defs = []
@@ -444,6 +523,8 @@ def run(ctx):
     t0 = time.time()
     n_clip, n_mask, n_op = (700, 350, 60) if quick else (7000, 3500, 400)
     cases = [gen_case(rng, 'clip') for _ in range(n_clip)] + [gen_case(rng, 'mask') for _ in range(n_mask)] + [gen_case(rng, 'opacity') for _ in range(n_op)]
+    n_sh = 120 if quick else 1200
+    cases += [gen_shared_case(rng, 'clip') for _ in range(n_sh // 3)] + [gen_shared_case(rng, 'mask') for _ in range(n_sh - n_sh // 3)]
     pool = cf.ThreadPoolExecutor(max_workers=2)
     fut_sys = pool.submit(ctx.rvh_batch, binp, 'c15-sys', [payload(c) for c in cases], (), 60)
     corpus = vlib.corpus_files()
@@ -563,6 +644,8 @@ def run(ctx):
         r = P.jload(o)
         c['kind'] = c['mode']
         c['what'] = {'clip': 'the clip path', 'mask': 'the mask', 'opacity': 'group opacity %s' % c.get('opacity')}[c['mode']]
+        if c.get('shared'):
+            c['what'] += ' shared by several elements with different boxes (%s)' % c['units']
         for kind, text in classify(ctx, c, r, stats, "%s|%s" % (c['mode'], c['doc'])):
             # KNOWN class clip-child-overlap-xor (Coq xor_hazard): the clip path has a child with its own clip-path that follows another
             # child, the clause is `inside unchanged`, and paint was only REMOVED at the first offending pixel
